@@ -187,6 +187,7 @@ def check_case(bitfield_mod, case, success_clause="auto_placement_should_succeed
     steps = history_steps(case)
     n_assign = sum(1 for s in steps if s[0] == "assign")
     status = "ok"
+    second_assign_returned = False
     try:
         for st in steps:
             if st[0] == "def":
@@ -225,6 +226,12 @@ def check_case(bitfield_mod, case, success_clause="auto_placement_should_succeed
                 except ValueError as e:
                     status = "rejected_assign"
                     assign_error = str(e)
+                    # a caller that catches the error and asks again, nothing having changed, is refused again
+                    try:
+                        bf.assign_fields()
+                        second_assign_returned = True
+                    except ValueError:
+                        second_assign_returned = False
                     break
                 for j in defined:       # positions now fixed (as reported by the object itself)
                     placed[j] = scope_of(bf, j).get_location_and_length(name[j])
@@ -253,6 +260,8 @@ def check_case(bitfield_mod, case, success_clause="auto_placement_should_succeed
     if status == "rejected_add":
         return status, bad, 0
     if status == "rejected_assign":
+        if conflict and second_assign_returned:
+            bad.append(("overlap_or_overflow_not_rejected", conflict + ": assign_fields() raised ValueError(%s), but a second assign_fields() - nothing changed in between - returned normally" % assign_error))
         if not explicit and n_assign == 1:
             # success clause: nothing explicitly positioned, single layout after all values
             def together(i):
@@ -713,6 +722,44 @@ def run(tier="quick", seed=0):
                             lst.sort(key=lambda t: t[:2])
                             del lst[MAX_PER_CLAUSE:]
 
+    # (H) tags on fields that depend on TWO selector fields of the same level (siblings, not ancestors of each other): every
+    #     selector a tagged field depends on carries that tag, whichever of the selectors was defined first or had the tag before
+    for first_sel in ("a", "b"):
+        for pre in ((), ("a",), ("b",), ("a", "b")):                  # selectors that carry the tag T of their own
+            for scopes_h in (((1, 2),), ((1, 2), (0, 2)), ((0, 1), (1, 1), (1, 2))):
+                ev += 1
+                layers["H"] = layers.get("H", 0) + 1
+                distinct.add(("H", first_sel, pre, scopes_h))
+                calls, why = ["bf = BitField(8)"], None
+                try:
+                    bf = bitfield_mod.BitField(8)
+                    for sel in ((first_sel,) + tuple(x for x in ("a", "b") if x != first_sel)):
+                        pos = 0 if sel == "a" else 2
+                        bf.add_field(sel, length=2, start_at=pos, tags=("T" if sel in pre else None))
+                        calls.append("bf.add_field(%r, length=2, start_at=%d, tags=%r)" % (sel, pos, "T" if sel in pre else None))
+                    for fi, (va, vb) in enumerate(scopes_h):
+                        bf(a=va, b=vb).add_field("f%d" % fi, length=4, start_at=4, tags="T")
+                        calls.append("bf(a=%d, b=%d).add_field('f%d', length=4, start_at=4, tags='T')" % (va, vb, fi))
+                    for sel in ("a", "b"):
+                        if "T" not in bf.get_tags(sel):
+                            why = "field f0 (tag T) is defined in the scope a=.., b=.. but selector %r does not carry T (tags %r)" % (sel, sorted(bf.get_tags(sel)))
+                    keys = []
+                    for fi, (va, vb) in enumerate(scopes_h):
+                        k_ = bf(a=va, b=vb, **{"f%d" % fi: 5})
+                        keys.append((k_.get_value(tag="T"), k_.get_mask(tag="T"), (va, vb)))
+                        if why is None and k_.get_mask(tag="T") != 0xff:
+                            why = "the mask restricted to tag T for a=%d, b=%d, f%d=5 is %#x; T's fields and the selectors they depend on cover %#x" % (va, vb, fi, k_.get_mask(tag="T"), 0xff)
+                    for (v1, m1, s1), (v2, m2, s2) in itertools.combinations(keys, 2):
+                        if why is None and (v1 & m2) == (v2 & m1) and s1 != s2:
+                            why = "the tag-T keys of the assignments %r and %r match each other (%#x/%#x and %#x/%#x)" % (s1, s2, v1, m1, v2, m2)
+                except Exception as e:      # noqa
+                    why = "%s: %s" % (type(e).__name__, e)
+                if why:
+                    lst = found.setdefault("tag_closure", [])
+                    lst.append(((3, 8, len(scopes_h), 0), ev, {"id": "H_%d" % ev, "clause": "tag_closure", "why": why, "inputs": {"calls": calls}}))
+                    lst.sort(key=lambda t: t[:2])
+                    del lst[MAX_PER_CLAUSE:]
+
     viol = []
     order = sorted(found, key=lambda c: found[c][0][:2])
     for rank in range(MAX_PER_CLAUSE):      # the smallest input of every clause first, then the second smallest
@@ -732,7 +779,7 @@ def run(tier="quick", seed=0):
                      "refused, success clause (no explicit start, single layout, co-present widths sum <= L => assign_fields succeeds). Layers %r: A exhaustive numerics for 1-2 fields "
                      "(start 0..L - for one field -2..L -, lengths/widths 1..3, 1..L+1 for one field); B every structure x order x explicit/automatic mode for 3 (and %s 4) fields with drawn numerics, L in 4..8 "
                      "(7%% 32/64); C every tag placement over every structure; D every all-automatic structure with widths 1..2 in the exactly-filled and one-bit-larger bit field, plus "
-                     "32/64-bit fields filled to the last bit; E all-automatic 5-field structures (inner widths 1..2, exactly filled; a failure of the success clause is finding D15 only for the inputs listed in known_findings_data/c08_first_fit.json); G values one too wide for fields of explicit length, before and after layout, positioned or not, scoped or not; F scopes that fix any subset of two independent selector fields a (1 bit), b (2 bits): 1-3 further automatic fields (quick: an eighth of the 3-field cases), exactly filled and one bit larger. non-trivial = laid out with >= 2 complete assignments compared, or rejected; "
+                     "32/64-bit fields filled to the last bit; E all-automatic 5-field structures (inner widths 1..2, exactly filled; a failure of the success clause is finding D15 only for the inputs listed in known_findings_data/c08_first_fit.json); H fields tagged T in scopes over two sibling selectors (either selector defined first, either / both / neither carrying T before): both selectors carry T afterwards, the tag-T mask covers them and the tag-T keys of different assignments do not match; a second assign_fields() after a justified rejection is rejected again; G values one too wide for fields of explicit length, before and after layout, positioned or not, scoped or not; F scopes that fix any subset of two independent selector fields a (1 bit), b (2 bits): 1-3 further automatic fields (quick: an eighth of the 3-field cases), exactly filled and one bit larger. non-trivial = laid out with >= 2 complete assignments compared, or rejected; "
                      "outcomes %r" % (MAX_ASSIGNMENTS, layers, "every" if thorough else "a seeded 20% of", stats)),
             "bound": "<= 4 fields (5 in the all-automatic layer E), depth <= 3, scope values 0/1, bit-field lengths 4..8 and 32/48/64 (layers D/E: the exactly filled length, 1..10), explicit lengths / automatic widths 1..3 (up to L for single fields and long bit fields)",
             "exhaustive": False, "label": "bounded", "samples": samples, "violations": viol, "seconds": round(secs, 2)}
